@@ -302,19 +302,39 @@ def rule_update_formulas(repo, rep):
   # gamma_proj
   gp = [v for (n, v) in guards.assignments(f.node, 'gamma_proj')
         if v is not None]
-  gp_ok = False
-  if gp and isinstance(gp[0], ast.IfExp):
-    v = eval_expr(gp[0].orelse, {'gamma': 'g'}, {})
-    one = eval_expr(gp[0].body, {'gamma': 'g'}, {})
-    g = Rat.sym('g')
+  gp_status, gp_why = 'unknown', 'definition of gamma_proj not recognised'
+  g = Rat.sym('g')
+  POS = ('gamma is np.inf', 'gamma == np.inf', 'np.isinf(gamma)',
+         'np.inf == gamma', 'np.inf is gamma')
+  NEG = ('gamma is not np.inf', 'gamma != np.inf', 'not np.isinf(gamma)',
+         'np.isfinite(gamma)', 'np.inf != gamma', 'np.inf is not gamma')
+  if len(gp) == 1 and isinstance(gp[0], ast.IfExp):
     cond = ast.unparse(gp[0].test)
-    gp_ok = isinstance(v, Rat) and v == g / (g + Rat.const(1)) and \
-        isinstance(one, Rat) and one == Rat.const(1) and \
-        cond in ('gamma is np.inf', 'gamma == np.inf', 'np.isinf(gamma)')
-  rep.add(R, 'itml._BaseITML._fit:gamma_proj', 'derived' if gp_ok else
-          'refuted', site(f), '' if gp_ok else 'gamma_proj is %s, documented '
-          'gamma / (gamma + 1) (1 when gamma is inf)'
-          % (ast.unparse(gp[0]) if gp else None))
+    if cond in POS or cond in NEG:
+      at_inf, finite = (gp[0].body, gp[0].orelse) if cond in POS else \
+          (gp[0].orelse, gp[0].body)
+      v = eval_expr(finite, {'gamma': 'g'}, {})
+      one = eval_expr(at_inf, {'gamma': 'g'}, {})
+      if isinstance(v, Rat) and isinstance(one, Rat):
+        if v == g / (g + Rat.const(1)) and one == Rat.const(1):
+          gp_status = 'derived'
+        else:
+          gp_status = 'refuted'
+          gp_why = 'gamma_proj is %s for finite gamma and %s at gamma = inf, ' \
+              'documented gamma / (gamma + 1) and 1' % (
+                  ast.unparse(finite), ast.unparse(at_inf))
+  elif len(gp) == 1:
+    v = eval_expr(gp[0], {'gamma': 'g'}, {})
+    if isinstance(v, Rat) and v == g / (g + Rat.const(1)):
+      gp_status = 'refuted'
+      gp_why = 'gamma_proj is %s on every path: inf / inf = NaN for ' \
+          'gamma = inf (documented: 1)' % ast.unparse(gp[0])
+    elif isinstance(v, Rat):
+      gp_status = 'refuted'
+      gp_why = 'gamma_proj is %s, documented gamma / (gamma + 1)' \
+          % ast.unparse(gp[0])
+  rep.add(R, 'itml._BaseITML._fit:gamma_proj', gp_status, site(f),
+          '' if gp_status == 'derived' else gp_why)
   for li, loop0 in enumerate(sorted(loops0, key=lambda n: n.lineno)):
     delta = Rat.const(1 if li == 0 else -1)
     tag = 'similar' if li == 0 else 'dissimilar'
@@ -607,11 +627,21 @@ def rule_setup(repo, rep):
         it.args else it
     un = astutil.unfold(seq, body, lp, stop=(pn, 'y'))
     ok = None
+    # (pairs[:, 0] - pairs[:, 1])[y == c]: selection after the difference
+    late = None
+    if isinstance(un, ast.Subscript) and isinstance(un.value, ast.BinOp):
+      probe = ast.Subscript(value=ast.Name(id=pn, ctx=ast.Load()),
+                            slice=un.slice, ctx=ast.Load())
+      if label_of(probe) is not None:
+        late = label_of(probe)
+        un = un.value
     if isinstance(un, ast.BinOp) and isinstance(un.op, ast.Sub):
       (b1, s1), (b2, s2) = slot(un.left), slot(un.right)
       if b1 is not None and b2 is not None and \
               ast.dump(b1) == ast.dump(b2) and sorted([s1, s2]) == [0, 1]:
         lv = label_of(b1)
+        if late is not None:
+          lv = late if ast.unparse(b1) == pn else None
         ok = lv == lab if lv is not None else None
         if lv is not None and lv != lab:
           rep.refuted(R, key + tag + ':pairs', site(f, lp), 'the %s '
